@@ -11,6 +11,7 @@ import ast
 from .core import AnchorError, Unsupported
 from .e1_srcmodel import qualname_of
 from .c09_terms import World, Unsup, is_tag, is_const, subterms, contains, show, NONE, ZEROS, EMPTY
+from .c09_blocks import norm as bnorm, fragile
 from .c09_run import explore, join_index, live_in, compatible, equal_mod_alloc, diff_text, resolve, mode_atoms, extend_join
 
 SRS = "pyyeti/srs.py"
@@ -144,17 +145,36 @@ def launches(an):
 def r1_disjoint_writes(ctx):
     an = analysis(ctx)
     ag = Agg(ctx)
+    undecided = set()
     written_labels = set()
     for q, lf, L in launches(an):
         sim, w = lf.sim, wname(L)
         evs = [e for e in task_events(sim, L) if shared(sim, L, e.oid)]
         wobjs = {e.oid for e in evs}
         axes = {}
+        if L.block is not None:
+            B = L.block
+            ag.add(f"{w}: task number k owns the indices range(F(k), F(k+1)) of one edge sequence F (consecutive ranges: pairwise disjoint and "
+                   "without gaps when F does not decrease) and its loop runs over exactly that range", B.used > 0, L.node,
+                   None if B.used else "no loop over the task's own range was found in the task")
+            if B.mono:
+                ag.add(f"{w}: the block edges F(k) do not decrease with k (sign / monotonicity calculus)", True, L.node)
+            else:
+                undecided.add((f"{w}: cannot prove that the block edges F(k) = {show(B.Fx)[:200]} do not decrease with k (blocks may overlap)", L.node))
         for e in evs:
             lab = label(sim, e.oid)
             written_labels.add((q, lab))
             pos = lv_positions(e.sel, L.lv) if e.kind == "store" else []
             ok = len(pos) == 1 and not any(contains(x, L.lv) for i, x in enumerate(e.sel) if i != pos[0])
+            if not ok and e.kind == "store":
+                # not the plain task index.  A definite conflict: no index depends on the task, so every task writes the same cells, with a value
+                # that depends on the task (the last writer wins).  Anything else (another injective map of the task index, an inner loop of the
+                # task over a range of its own) is a partition this rule does not decide.
+                dep = any(is_tag(x, "lv", "blk") for it in e.sel for x in subterms(it))
+                if dep or not (e.value is not None and contains(e.value, L.lv)):
+                    undecided.add((f"{w}: store `{src(e.node)}` into shared array {lab} is not indexed by the plain task index "
+                                   f"([{', '.join(show(x)[:60] for x in e.sel)}]): disjointness of the tasks' writes not decided", e.node))
+                    continue
             ag.add(f"{w}: store `{src(e.node)}` into shared array {lab} is made at the task index (own slice only)", ok, e.node,
                    {"selection": [show(x) for x in e.sel], "how": e.how or e.note})
             if ok:
@@ -165,6 +185,11 @@ def r1_disjoint_writes(ctx):
             lab = label(sim, r.oid)
             pos = lv_positions(r.sel, L.lv)
             ok = len(pos) == 1
+            if not ok and any(e.oid == r.oid and e.kind == "store" and e.sel == r.sel for e in evs) and \
+                    any(is_tag(x, "lv", "blk") for it in r.sel for x in subterms(it)):
+                undecided.add((f"{w}: read `{src(r.node)}` of written shared array {lab} is made where the task itself stores, which is not the plain "
+                               "task index: not decided", r.node))
+                continue
             ag.add(f"{w}: read `{src(r.node)}` of written shared array {lab} is made at the task index", ok, r.node,
                    {"selection": [show(x) for x in r.sel]})
             if ok:
@@ -177,6 +202,8 @@ def r1_disjoint_writes(ctx):
             if not ok:
                 continue
     ag.flush()
+    for text, node in sorted(undecided, key=lambda x: x[0]):
+        ctx.error(text, node, "undecided")
     labs = sorted({l for _, l in written_labels})
     ctx.check(len(labs) >= 5, "written shared arrays bound: SRSmax_, HIST_, ASV_, BinAmps_, Count_", SRS + ":1", labs, nontrivial=False)
 
@@ -235,6 +262,17 @@ def _bad_calls(fn):
     return bad
 
 
+def _without(t, paths):
+    """the tuple term t with the components at the given index paths blanked"""
+    def go(x, path):
+        if path in paths:
+            return ("s", "<block edge>")
+        if is_tag(x, "tuple", "list"):
+            return (x[0],) + tuple(go(e, path + (i,)) for i, e in enumerate(x[1:]))
+        return x
+    return go(t, ())
+
+
 def r3_no_other_channel(ctx):
     an = analysis(ctx)
     ag = Agg(ctx)
@@ -249,15 +287,29 @@ def r3_no_other_channel(ctx):
         if L.ret == NONE:
             ag.add(f"{w}: returns nothing (results travel only through the shared arrays)", True, L.node)
         el = L.elem
-        ok = is_tag(el, "tuple") and len(el) == 3 and el[1] == L.lv and not contains(sim.snap(el[2], record=False), L.lv)
-        ag.add(f"{q}: each task is (index, arguments) with the index running over the task range and the arguments the same for every task "
-               f"[{w}]", ok, L.node, None if ok else show(sim.snap(el, record=False))[:200])
+        if L.block is not None:
+            rest = _without(sim.snap(el, record=False), L.block.paths)
+            ok = not contains(rest, L.block.blk) and not contains(rest, L.lv)
+            ag.add(f"{q}: each task is (own index range, arguments) with the arguments the same for every task [{w}]", ok, L.node,
+                   None if ok else show(rest)[:200])
+        else:
+            ok = is_tag(el, "tuple") and len(el) == 3 and el[1] == L.lv and not contains(sim.snap(el[2], record=False), L.lv)
+            ag.add(f"{q}: each task is (index, arguments) with the index running over the task range and the arguments the same for every task "
+                   f"[{w}]", ok, L.node, None if ok else show(sim.snap(el, record=False))[:200])
         for oid, p, shp in _task_axes(sim, L):
             lab = label(sim, oid)
             if is_tag(shp, "tuple") and p < len(shp) - 1 and L.count is not None:
                 dim, cnt = lf.term(shp[1 + p]), lf.term(L.count)
                 txt = f"{q}: one task per index of the task axis of {lab} (as many tasks as entries) [{w}]"
-                if dim == cnt:
+                if L.block is not None:
+                    txt = f"{q}: the blocks cover the task axis of {lab} exactly (as many indices as entries) [{w}]"
+                    if bnorm(dim) == cnt:
+                        ag.add(txt, True, L.node)
+                    elif fragile(cnt, bnorm(dim), L.block.facts):
+                        ag.add(txt, False, L.node, fragile(cnt, bnorm(dim), L.block.facts))
+                    else:
+                        ctx.note(f"{w}: length of the task axis of {lab} ({show(dim)[:80]}) not compared with the span of the blocks ({show(cnt)[:80]})")
+                elif dim == cnt:
                     ag.add(txt, True, L.node)
                 elif comparable_diff(dim, cnt):
                     ag.add(txt, False, L.node, {"axis length": show(dim)[:200], "tasks": show(cnt)[:200]})
@@ -267,7 +319,9 @@ def r3_no_other_channel(ctx):
         T = pool.processes
         if T != NONE and not is_const(T):
             where = []
-            if contains(sim.snap(L.elem, record=False), T):
+            # (the edges of a block launch may depend on the worker count: what matters is that the blocks tile the index range, C09-R1/R5)
+            targ = sim.snap(L.elem, record=False) if L.block is None else _without(sim.snap(L.elem, record=False), L.block.paths)
+            if contains(targ, T):
                 where.append("task arguments")
             if contains(sim.snap(pool.initargs, record=False), T):
                 where.append("initargs")
@@ -471,6 +525,7 @@ def _empty_read(sim):
 def r5_serial_equals_worker(ctx):
     an = analysis(ctx)
     ag = Agg(ctx)
+    undecided = set()
     for q, (rel, fn, K, live, leaves) in an.entries.items():
         P = [lf for lf in leaves if lf.parallel]
         S = [lf for lf in leaves if not lf.parallel]
@@ -554,6 +609,25 @@ def r5_serial_equals_worker(ctx):
                         a, b = p.term(L.count, up) if L.count is not None else None, s.term(lo.count, us)
                         if a is None:
                             continue
+                        if L.block is not None:
+                            B = L.block
+                            f0, fn_, exp = p.term(B.F0, up), (None if B.Fn is None else p.term(B.Fn, up)), bnorm(b)
+                            t0 = f"{q}: the first block of {wname(L)} starts at index 0"
+                            t1 = f"{q}: the last block of {wname(L)} ends exactly at the number of indices of the serial loop"
+                            if f0 == ("c", "int", 0):
+                                ag.add(t0, True, L.node)
+                            elif is_const(f0):
+                                ag.add(t0, False, L.node, show(f0))
+                            else:
+                                undecided.add((t0 + f": not decided, F(0) = {show(f0)[:200]}", L.node))
+                            if fn_ is not None and fn_ == exp and f0 == ("c", "int", 0):
+                                ag.add(t1, True, L.node)
+                            elif fn_ is not None and fragile(fn_, exp, B.facts):
+                                ag.add(t1, False, L.node, fragile(fn_, exp, B.facts))
+                            else:
+                                undecided.add((t1 + f": not decided, F(number of tasks) = {show(fn_)[:200] if fn_ is not None else '?'}, "
+                                                    f"serial loop: {show(exp)[:80]}", L.node))
+                            continue
                         if a == b:
                             ag.add(f"{q}: the tasks of {wname(L)} and the serial loop run over the same index range", True, L.node)
                         elif comparable_diff(a, b):
@@ -562,6 +636,8 @@ def r5_serial_equals_worker(ctx):
                         else:
                             ctx.note(f"{q}: task range {show(a)[:60]} and serial range {show(b)[:60]} not compared")
     ag.flush()
+    for text, node in sorted(undecided, key=lambda x: x[0]):
+        ctx.error(text, node, "undecided")
     ctx.assume("scipy.signal.lfilter, numpy reductions and the repo's pure helpers are deterministic functions of their arguments")
     ctx.assume("user-supplied peak/rolloff callables and the coefficient routines picked from the srs tables are pure")
     ctx.assume("the value copied into a float64 shared buffer is the value the serial path hands to lfilter (inputs are real; float64 conversion is exact for them)")
